@@ -800,17 +800,19 @@ func run(sh *core.Shard, a props.Args) {
 	runEmission(sh, a, a.Pick(160, 6000), a.Pick(500, 1200))
 	// (3) hostile input
 	runHostile(sh, a, a.Pick(15000, 600000), a.Pick(120, 2500))
+	// (3b) the same over real sockets, through the real Serve loops
+	runSocketLeg(sh, a, a.Pick(600, 20000), a.Pick(50, 600))
 }
 
 func init() {
 	props.Register(&props.Prop{
 		ID: "C13", Level: "exploration", BoundedTime: true,
-		Rule: "(1) codec sweep: generated digests/deltas (0-80 nodes, 0-40 entries, keys/values 0-400 bytes incl. unicode/empty/tombstones) encoded by the real encoder at every maxPacketSize from below the header to full length+1 (all sizes for messages up to the exhaustive limit, boundary-1/boundary/boundary+1 otherwise); element boundaries computed independently with a generic msgpack decode; oracle: error below header, length <= max, maximal whole-element prefix, decode(encode(x)) = element-wise prefix. (2) every datagram emitted in simulator runs (packet sizes from 0 upwards) is checked for size, decodability, ascending versions, newer-than-digest and no skipped entry. (3) hostile datagrams/streams (crafted seeds + mutations) fed to the real handlePacket / handleConn: no panic, returns within streamTimeout+20s, own state unchanged, a valid exchange still works afterwards. evaluations = (message,size) pairs + simulator runs + hostile inputs; non-trivial = a sweep message or simulator run in which truncation actually happened.",
+		Rule: "(1) codec sweep: generated digests/deltas (0-80 nodes, 0-40 entries, keys/values 0-400 bytes incl. unicode/empty/tombstones) encoded by the real encoder at every maxPacketSize from below the header to full length+1 (all sizes for messages up to the exhaustive limit, boundary-1/boundary/boundary+1 otherwise); element boundaries computed independently with a generic msgpack decode; oracle: error below header, length <= max, maximal whole-element prefix, decode(encode(x)) = element-wise prefix. (2) every datagram emitted in simulator runs (packet sizes from 0 upwards) is checked for size, decodability, ascending versions, newer-than-digest and no skipped entry. (3) hostile datagrams/streams (crafted seeds + mutations) fed to the real handlePacket / handleConn: no panic, returns within streamTimeout+20s, own state unchanged, a valid exchange still works afterwards. (3b) the same inputs plus the zero-length datagram sent over real loopback UDP/TCP sockets to a Gossip created with New() (the real Serve loops): after every batch a valid digest request is still answered with a delta and a valid join is answered. evaluations = (message,size) pairs + simulator runs + hostile inputs; non-trivial = a sweep message or simulator run in which truncation actually happened.",
 		Assumptions: []string{
 			"the packet handler is called synchronously as packetListener.Serve does; a panic there is recovered by the harness only to name the input - in piko it kills the process",
 			"stream handler driven over net.Pipe with streamTimeout=300ms instead of 10s",
 		},
-		RequireCounters: []string{"sweep_truncated_outputs", "sweep_below_header_sizes", "truncated_deltas", "hostile_packets", "hostile_streams", "stalled_streams_timed_out", "valid_exchanges_after_hostile"},
+		RequireCounters: []string{"sweep_truncated_outputs", "sweep_below_header_sizes", "truncated_deltas", "hostile_packets", "hostile_streams", "stalled_streams_timed_out", "valid_exchanges_after_hostile", "socket_hostile_datagrams", "socket_hostile_streams", "socket_valid_exchanges_after_hostile"},
 		Timeout: func(t string) time.Duration {
 			if t == "thorough" {
 				return 90 * time.Minute
